@@ -46,6 +46,11 @@ func (p *Parser) getToken() {
 			p.ErrorRow = p.Row
 		}
 
+		// a string literal may span lines: count them once, when the token is lexed
+		if stringValue, ok := p.Lexer.Value().(string); ok && p.token == base.STRING {
+			p.Row += strings.Count(stringValue, "\n")
+		}
+
 		return
 	}
 
@@ -118,12 +123,6 @@ func (p *Parser) Read() (*base.T, error) {
 	case base.STRING:
 		stringValue := p.Lexer.Value().(string)
 		t = base.MakeString(stringValue)
-
-		if p.BeforeString != stringValue {
-			// Count newlines in string and increment p.Row accordingly
-			newlineCount := strings.Count(stringValue, "\n")
-			p.Row += newlineCount
-		}
 
 		p.BeforeString = stringValue
 
